@@ -68,11 +68,13 @@ static CUR_CASE: AtomicU64 = AtomicU64::new(u64::MAX);
 static CUR_SUB: AtomicU64 = AtomicU64::new(u64::MAX);
 static CASE_START_MS: AtomicU64 = AtomicU64::new(0);
 static CASE_TIMEOUT_MS: AtomicU64 = AtomicU64::new(0);
+static DEFAULT_TIMEOUT_MS: AtomicU64 = AtomicU64::new(0);
 static LAST_PANIC: Mutex<Option<(String, String)>> = Mutex::new(None);
 
 fn now_ms() -> u64 {
     static START: std::sync::OnceLock<Instant> = std::sync::OnceLock::new();
-    START.get_or_init(Instant::now).elapsed().as_millis() as u64
+    // never 0: the watchdog reads 0 as "no case open" (a replayed item can start within the first millisecond)
+    START.get_or_init(Instant::now).elapsed().as_millis() as u64 + 1
 }
 
 pub struct Ctx {
@@ -222,6 +224,7 @@ impl Ctx {
         self.sub_idx = 0;
         CUR_SUB.store(u64::MAX, Ordering::SeqCst);
         CUR_CASE.store(i, Ordering::SeqCst);
+        CASE_TIMEOUT_MS.store(DEFAULT_TIMEOUT_MS.load(Ordering::SeqCst), Ordering::SeqCst);
         CASE_START_MS.store(now_ms(), Ordering::SeqCst);
         let t_item = Instant::now();
         let r = catch_unwind(AssertUnwindSafe(|| body(self)));
@@ -277,6 +280,12 @@ impl Ctx {
         CUR_SUB.store(k, Ordering::SeqCst);
         CASE_START_MS.store(now_ms(), Ordering::SeqCst);
         true
+    }
+
+    /// Tightens the watchdog for the rest of the current item (sub-cases known to take micro- or milliseconds:
+    /// a hang is then reported after `secs`, not after the item timeout of the heaviest space of the check).
+    pub fn set_timeout_s(&mut self, secs: u64) {
+        CASE_TIMEOUT_MS.store(secs * 1000, Ordering::SeqCst);
     }
 
     /// Runs `f` under catch_unwind *inside* an item, returning the panic site on unwind.
@@ -436,6 +445,7 @@ pub fn worker_main(def: &'static CheckDef, tier: Tier, shard: usize, nshards: us
         libc::setrlimit(libc::RLIMIT_AS, &lim);
     }
     CASE_TIMEOUT_MS.store(def.item_timeout_s * 1000, Ordering::SeqCst);
+    DEFAULT_TIMEOUT_MS.store(def.item_timeout_s * 1000, Ordering::SeqCst);
     std::thread::spawn(|| {
         loop {
             std::thread::sleep(Duration::from_millis(100));
@@ -623,7 +633,7 @@ fn finish_worker(
             let case = describe_item(def, tier, shard, nshards, idx, sub, base_env);
             let hint = case.get("sig_hint").and_then(|h| h.as_str()).map(|h| format!(":{h}")).unwrap_or_default();
             let (sig, what) = if kind == "TIMEOUT" {
-                (format!("timeout{hint}"), format!("case did not finish within {} s", def.item_timeout_s))
+                (format!("timeout{hint}"), format!("case did not finish within its watchdog time (at most {} s)", def.item_timeout_s))
             } else {
                 let overflow = r.stderr.contains("has overflowed its stack");
                 let oom = r.stderr.contains("memory allocation of");
@@ -631,9 +641,13 @@ fn finish_worker(
                 (format!("crash:{k}{hint}"), format!("process died with signal {signo} ({k}) while running the case"))
             };
             crash_violations.push(Violation { sig, what, idx, case });
+            // the third crash / hang inside one item abandons the rest of that item (each restart replays the
+            // shard up to it): the sub-cases already attributed stand as violations
+            let prefix = format!("{idx}:");
+            let in_item = skip.iter().filter(|s| s.starts_with(&prefix)).count();
             skip.push(match sub {
-                Some(k) => format!("{idx}:{k}"),
-                None => idx.to_string(),
+                Some(k) if in_item < 2 => format!("{idx}:{k}"),
+                _ => idx.to_string(),
             });
             restarts += 1;
             if restarts > 60 {
